@@ -6,6 +6,8 @@ package main
 // here (digests, sizes, diff-ids, tar readability, completeness, go-containerregistry validate).
 
 import (
+	"archive/tar"
+	"bytes"
 	"context"
 	"encoding/json"
 	"fmt"
@@ -410,12 +412,28 @@ func (ociSuite) Run(raw json.RawMessage) []Step {
 	}
 	var order []built
 	buildFailed := false
-	for _, oa := range c.Archs {
+	// every image is BUILT first — from the same configuration value, each with its own creation time (per-arch
+	// build dates) — and only then read: an image must not change when a later one is built
+	type prebuilt struct {
+		img     coci.SignedImage
+		err     error
+		layers  []v1.Layer
+		created string
+	}
+	pre := make([]prebuilt, len(c.Archs))
+	for k, oa := range c.Archs {
 		layers := make([]v1.Layer, len(oa.Layers))
 		for i, seed := range oa.Layers {
 			layers[i] = ociLayer(seed)
 		}
-		img, err := apkooci.BuildImageFromLayers(ctx, empty.Image, layers, ic, created, types.Architecture(oa.Arch))
+		ck := created.Add(time.Duration(k) * time.Hour)
+		img, err := apkooci.BuildImageFromLayers(ctx, empty.Image, layers, ic, ck, types.Architecture(oa.Arch))
+		pre[k] = prebuilt{img, err, layers, ck.Format(time.RFC3339)}
+	}
+	baseFields := icFields
+	for k, oa := range c.Archs {
+		layers, img, err, createdStr := pre[k].layers, pre[k].img, pre[k].err, pre[k].created
+		icFields := append(append([]string(nil), baseFields[:len(baseFields)-1]...), hx(createdStr))
 		line := "oci.config\t" + strings.Join(icFields, "\t") + "\t" + hx(oa.Arch)
 		desc := fmt.Sprintf("BuildImageFromLayers(arch=%q, %d layers, %s)", oa.Arch, len(layers), icDesc)
 		tags := []string{fmt.Sprintf("layers:%d", len(layers))}
@@ -552,10 +570,40 @@ func (ociSuite) Run(raw json.RawMessage) []Step {
 	buildBundle := func(tags []string) ([]byte, error) {
 		nfile++
 		p := filepath.Join(dir, fmt.Sprintf("bundle-%d.tar", nfile))
+		if len(c.Tags)%2 == 0 {
+			// the output path already holds an earlier, larger bundle (a rebuild to the same file): the new
+			// archive must still be readable to its end and complete
+			prev := append([]string(nil), tags...)
+			for k := 0; k < 40; k++ {
+				prev = append(prev, fmt.Sprintf("%s-previous-build-%02d", tags[0], k))
+			}
+			if _, err := apkooci.BuildIndex(p, idx, prev); err != nil {
+				return nil, err
+			}
+		}
 		if _, err := apkooci.BuildIndex(p, idx, tags); err != nil {
 			return nil, err
 		}
-		return os.ReadFile(p)
+		data, err := os.ReadFile(p)
+		if err != nil || len(c.Tags)%2 != 0 {
+			return data, err
+		}
+		// a rebuild over a larger file leaves the old bytes after the new end-of-archive marker, where no reader
+		// looks: cut the data at the point a standard reader stops (the marker included)
+		cr := &ociCountingReader{r: bytes.NewReader(data)}
+		tr := tar.NewReader(cr)
+		for {
+			if _, err := tr.Next(); err != nil {
+				if err == io.EOF && cr.n <= int64(len(data)) {
+					end := (cr.n + 511) / 512 * 512
+					if end <= int64(len(data)) {
+						data = data[:end]
+					}
+				}
+				break
+			}
+		}
+		return data, nil
 	}
 	tags := append([]string(nil), c.Tags...)
 	data, err := buildBundle(tags)
@@ -791,4 +839,19 @@ func ociStretch(tags []string, data []byte, k, j, delta int, build func([]string
 		tags, data, cur = next, b, n
 	}
 	return tags, data
+}
+
+type ociCountingReader struct {
+	r io.Reader
+	n int64
+}
+
+func (c *ociCountingReader) Read(p []byte) (int, error) {
+	// one block at a time, so that the count is exactly where the tar reader stopped
+	if len(p) > 512 {
+		p = p[:512]
+	}
+	n, err := c.r.Read(p)
+	c.n += int64(n)
+	return n, err
 }
